@@ -1,7 +1,7 @@
 (* C20_html.v -- proofs about the HTML error page and the last-resort page of
    model/ErrPage.v.  Everything here is for an arbitrary Unicode printability
    table [isp] and arbitrary url / path / exception / traceback strings. *)
-From Verif Require Import lib.Base lib.Str lib.Html lib.PyRepr model.ErrPage.
+From Verif Require Import lib.Base lib.Str lib.Html lib.PyRepr model.ErrPage proofs.C20_escape.
 From Verif Require gen.Gen.
 
 (* ------------------------------------------------------------------ *)
